@@ -646,24 +646,22 @@ impl DrawExecutor {
     }
 
     fn blit_memory_to_screen(&mut self, _write_mode: i32, from: Position, to: Position, dest: Position) {
-        let width = to.x - from.x;
-        let height = to.y - from.y;
+        // screen_memory holds screen_memory_size.width pixels per row. Only pixels of the piece that are inside the
+        // stored image and land on the screen are copied (i64: the parameters span the whole i32 range).
+        let mem = self.screen_memory_size;
         let res = self.get_resolution();
+        let (from_x, from_y) = (i64::from(from.x), i64::from(from.y));
+        let (dest_x, dest_y) = (i64::from(dest.x), i64::from(dest.y));
+        let width = i64::from(to.x) - from_x;
+        let height = i64::from(to.y) - from_y;
+        let (x_start, x_end) = (0.max(-from_x).max(-dest_x), width.min(i64::from(mem.width) - from_x).min(i64::from(res.width) - dest_x));
+        let (y_start, y_end) = (0.max(-from_y).max(-dest_y), height.min(i64::from(mem.height) - from_y).min(i64::from(res.height) - dest_y));
 
-        for y in 0..height {
-            let yp = y + from.y;
-            if dest.y + y >= res.height {
-                break;
-            }
-            for x in 0..width {
-                let xp = x + from.x;
-
-                if dest.x + x >= res.width {
-                    break;
-                }
-                let offset = (yp * width + xp) as usize;
+        for y in y_start..y_end {
+            for x in x_start..x_end {
+                let offset = ((from_y + y) * i64::from(mem.width) + from_x + x) as usize;
                 let color = self.screen_memory[offset];
-                self.set_pixel(dest.x + x, dest.y + y, color);
+                self.set_pixel((dest_x + x) as i32, (dest_y + y) as i32, color);
             }
         }
     }
